@@ -57,7 +57,7 @@ fn applies_same(a: &LayerEnv, b: &LayerEnv) -> Option<String> {
 pub fn env_files(thorough: bool) -> Report {
     let mut r = Report::new(
         "witness search on a real tempdir: every pair (old env, new env) of layer environments with up to K entries over 5 scopes (all, build, launch, process web, process worker) x 5 behaviours x names {A, B.c, non-UTF-8} x values {empty, bytes}, written successively into one layer directory holding an unrelated file: afterwards the env directories hold exactly the CNB layout of the NEW env, the unrelated file is untouched, and read_from_layer_dir applies identically to the new env; non-trivial = pairs where old and new differ",
-        if thorough { "K = 2 entries per environment" } else { "K = 1 entry per environment, plus the empty environment" },
+        if thorough { "K = 2 entries per environment" } else { "K = 1 entry per environment, plus the empty environment and three multi-scope environments (launch + two process types, two process types, all five scopes)" },
     );
     let names: Vec<Vec<u8>> = vec![b"A".to_vec(), b"B.c".to_vec(), vec![0xff, b'x']];
     let vals: Vec<Vec<u8>> = vec![vec![], vec![b'v', 0xfe, b'\n']];
@@ -65,6 +65,10 @@ pub fn env_files(thorough: bool) -> Report {
     for s in 0..5u8 { for b in 0..5u8 { for n in 0..names.len() { for v in 0..vals.len() { singles.push((s, b, n, v)); } } } }
     let mut envs: Vec<Vec<Entry>> = vec![vec![]];
     for e in &singles { envs.push(vec![*e]); }
+    // always: environments that use several scopes at once (launch + two process types; two process types alone; everything)
+    envs.push(vec![(2, 2, 0, 1), (3, 3, 0, 1), (4, 0, 1, 0)]);
+    envs.push(vec![(3, 2, 0, 1), (4, 2, 0, 1)]);
+    envs.push(vec![(0, 1, 0, 1), (1, 4, 0, 1), (2, 0, 2, 0), (3, 3, 1, 1), (4, 2, 2, 1)]);
     if thorough { for (i, a) in singles.iter().enumerate() { for b in singles.iter().skip(i + 1).step_by(7) { if (a.0, a.1, a.2) != (b.0, b.1, b.2) { envs.push(vec![*a, *b]); } } } }
     // old environments: a small covering subset (every scope once) to keep the quick tier fast
     let olds: Vec<Vec<Entry>> = { let mut v = vec![vec![]]; for s in 0..5u8 { v.push(vec![(s, 3, 0, 1)]); v.push(vec![(s, 0, 1, 0)]); } if thorough { v = envs.clone(); } v };
